@@ -1,6 +1,7 @@
 """exp2python's Python-keyword escaping list and import preamble -> Generated/GenPyGen.lean
 
   pythonKeywords   the `keyword_list[]` of is_python_keyword() (src/exp2python/src/classes_python.c)
+  escapesStems     is_python_keyword compares the word without its trailing underscores (strncmp over the stem) instead of strcmp
   runtimePackage   the package the emitted module imports its runtime from (classes_wrapper_python.cc preamble)
   sortsBases       LIBdescribe_entity sorts the supertype list with LISTsort(…, cmp_python_mro) before emitting the bases
   ancestorsLast    LIBdescribe_entity emits the bases through python_base_order( supertypes )
@@ -22,6 +23,18 @@ def extract(repo):
     items = re.findall(r'"([^"]*)"', m.group(1))
     if not items or "NULL" not in m.group(1):
         raise ValueError("keyword_list[]: no string items / no NULL terminator")
+    i = c.find("bool is_python_keyword(")
+    kb = re.sub(r"\s+", " ", re.sub(r"/\*.*?\*/", "", c[i:c.find("\n}", i)], flags=re.S))
+    loop = kb[kb.index("NULL};") + 6:].strip()
+    if re.fullmatch(r"bool python_keyword = false; for\( i = 0; keyword_list\[i\] != NULL; i\+\+ \) \{ if\( strcmp\( word, keyword_list\[i\] \) == 0 \) "
+                    r"\{ python_keyword = true; \} \} return python_keyword;", loop):
+        stems = False
+    elif re.fullmatch(r"bool python_keyword = false; size_t stem = strlen\( word \); while\( stem > 0 && word\[stem - 1\] == '_' \) \{ stem--; \} "
+                      r"for\( i = 0; keyword_list\[i\] != NULL; i\+\+ \) \{ if\( strlen\( keyword_list\[i\] \) == stem && strncmp\( word, keyword_list\[i\], stem \) == 0 \) "
+                      r"\{ python_keyword = true; \} \} return python_keyword;", loop):
+        stems = True
+    else:
+        raise ValueError("is_python_keyword: the comparison loop is neither of the two modelled forms: " + loop[:160])
     w = open(os.path.join(repo, "src/exp2python/src/classes_wrapper_python.cc")).read()
     pk = re.findall(r'"from (\w+)\.SCLBase import \*\\n"', w)
     if len(pk) != 1:
@@ -103,6 +116,9 @@ namespace StepModel.Generated
 
 /-- `keyword_list[]` of `is_python_keyword()`: identifiers that get a trailing underscore -/
 def pythonKeywords : List String := [{lst}]
+/-- `is_python_keyword` compares the word without its trailing underscores (`class_`, `class__` are escaped like `class`);
+`false`: the word itself (`strcmp`) -/
+def escapesStems : Bool := {"true" if stems else "false"}
 /-- the package named in the emitted import preamble -/
 def runtimePackage : String := "{pk[0]}"
 /-- `LISTsort(supertypes, cmp_python_mro)` is applied before the base classes are emitted -/
